@@ -73,7 +73,8 @@ CHECKS["C18"] = dict(
 CHECKS["C19"] = dict(
     level_text="One allocator step from an arbitrary valid buffer state with fully symbolic chunk lengths, capacities and request size: the solver shows length, non-overlap, append-only emission order and invariant preservation, which covers allocation histories of any length by induction; plus K allocations from the empty buffer.",
     level_note="Bounds: states of 0..2 (quick) / 0..3 (thorough) chunks, sizes in [0,2^31); sequences of 3 (quick) / 5 (thorough) allocations. " + BASE_TRUST,
-    assumptions=["slice elements are not inspected (the allocator never reads them)", "representation invariant of the last chunk: cap == 32768 or len == cap"],
+    assumptions=["slice elements are not inspected (the allocator never reads them)", "representation invariant of the last chunk: cap == 32768 or len == cap",
+                 "metadata-only transfer: model file system, one schedule, concrete metadata (symbolic metadata is covered by C07/C20), no hard links (selector precondition)"],
     obligations=[
         ob("VH_C19_alloc_step", dict(K=0), covers=["appended"], bounds="empty buffer, n in [0,2^31)"),
         ob("VH_C19_alloc_step", dict(K=1), covers=["appended", "extended"], bounds="1 chunk, symbolic len/cap, n in [0,2^31)"),
@@ -81,6 +82,8 @@ CHECKS["C19"] = dict(
         ob("VH_C19_alloc_step", dict(K=3), T, covers=["appended", "extended"], bounds="3 chunks, symbolic len/cap"),
         ob("VH_C19_alloc_seq", dict(K=3), Q, covers=["done"], bounds="3 allocations, symbolic sizes"),
         ob("VH_C19_alloc_seq", dict(K=5), T, covers=["done"], bounds="5 allocations, symbolic sizes"),
+        ob("VH_C19_metaonly", dict(MAXB=1), Q, covers=["requested", "done"], bounds="source [.fsutil-metadata?, d, d/f?, e?], every selector, files <=1 symbolic byte, prior dest in {empty, stale file, old listing file, listing-name symlink}; model FS"),
+        ob("VH_C19_metaonly", dict(MAXB=2), T, covers=["requested", "done"], bounds="as quick with files <=2 symbolic bytes"),
     ],
 )
 
@@ -140,6 +143,17 @@ CHECKS["C07"] = dict(
         ob("VH_C07_receiver", dict(SHAPE=0, MAXB=1), covers=["requested", "not-requested", "done"], bounds="source {d, e}, files <=1 byte"),
         ob("VH_C07_receiver", dict(SHAPE=1, MAXB=2), covers=["requested", "not-requested", "done"], bounds="source {d, d/f}, files <=2 bytes"),
         ob("VH_C07_receiver", dict(SHAPE=2, MAXB=1), T, covers=["requested", "not-requested", "done"], bounds="source {d, d/f, e} incl. hard link, files <=1 byte"),
+    ],
+)
+
+CHECKS["C05"] = dict(
+    level_text="The change callback of the real Receive is checked on the model file system against the set of paths whose identity or bytes differ between the prior destination and the announced source, for every source, prior destination and chunking inside the bounds: one upsert per changed path with the stat as sent, none for unchanged paths, one delete per removed top-most path, and the hash sink fed header ++ exactly the stored bytes with the attached digest being the digest of that sink.",
+    level_note="Bounds as C07 (source over {d, d/f, e}, symbolic permission bits/uid/gid, files <=1 (quick) / <=2 (thorough) symbolic bytes, every chunking). Add and modify are both treated as upsert (regular files are always reported as add). SHA-256 is not encoded: the hash is a recording sink and the digest is compared through the same digest constructor. " + FS_TRUST + BASE_TRUST,
+    assumptions=["completion orders other than the canonical schedule are outside the claim", "the timing-dependent hard-link exception of C02 is excluded (link groups intact)"],
+    obligations=[
+        ob("VH_C05_notify", dict(SHAPE=0, MAXB=1), covers=["unchanged", "changed", "dir-metadata-change", "dir-unchanged", "delete", "done"], bounds="source {d, e}"),
+        ob("VH_C05_notify", dict(SHAPE=1, MAXB=2), covers=["unchanged", "changed", "done"], bounds="source {d, d/f}, files <=2 bytes"),
+        ob("VH_C05_notify", dict(SHAPE=2, MAXB=1), T, covers=["unchanged", "changed", "dir-metadata-change", "delete", "done"], bounds="source {d, d/f, e} incl. hard link"),
     ],
 )
 
